@@ -19,7 +19,7 @@ fn universe() -> Vec<crate::dom::GroundAtom> {
 
 pub fn check(deep: bool, pairs: &mut usize, skipped: &mut usize, fails: &mut Vec<Failure>) {
     let gen_terms = ["Y", "X", "Z", "Z1", "W", "1", "a", "#inf", "N$i", "N$i + 1", "M$i", "I$i * 2", "Y$i"];
-    let int_terms = ["M$i", "N$i", "I$i", "N$i + 1", "2", "M$i * I$i", "X$i", "-N$i"];
+    let int_terms = ["M$i", "N$i", "I$i", "N$i + 1", "2", "M$i * I$i", "X$i", "-N$i", "M$i * M1$i", "I$i + I1$i", "N1$i - N$i"];
     let vars: Vec<(fol::Variable, &[&str])> = vec![
         (fol::Variable { name: "X".into(), sort: fol::Sort::General }, &gen_terms),
         (fol::Variable { name: "Y".into(), sort: fol::Sort::General }, &gen_terms),
